@@ -169,7 +169,7 @@ def run_case(cs):
                     comps = rel.split("/")
                     if "ascmhl" in comps or ".DS_Store" in comps:
                         cs.violation("always-ignored-name-recorded", {"kind": "default-ignore-recorded"}, {"steps": steps, "path": rel})
-                    elif ignoreref.match(want, rel) is True:
+                    elif ignoreref.match(want, rel, rec["kind"] == "dir") is True:
                         cs.violation(
                             "ignored-path-recorded",
                             {"kind": "ignored-recorded", "what": rec["kind"], "nested": h != "."},
@@ -200,7 +200,7 @@ def run_case(cs):
     shutil.copytree(plain, stripped)
     removed = 0
     for rel in sorted(world.read_tree(stripped), key=lambda s: -s.count("/")):
-        if ignoreref.match(eff, rel) is True and os.path.lexists(os.path.join(stripped, rel)):
+        if os.path.lexists(os.path.join(stripped, rel)) and ignoreref.match(eff, rel, os.path.isdir(os.path.join(stripped, rel)) and not os.path.islink(os.path.join(stripped, rel))) is True:
             p = os.path.join(stripped, rel)
             shutil.rmtree(p) if os.path.isdir(p) else os.remove(p)
             removed += 1
@@ -211,7 +211,7 @@ def run_case(cs):
         cs.count("differential_dirhash")
         common = [k for k in b if k in a]
         bad = [k for k in common if a[k] != b[k]]
-        extra_dirs = [k for k in a if k not in b and ignoreref.match(eff, k) is True]
+        extra_dirs = [k for k in a if k not in b and ignoreref.match(eff, k, True) is True]
         if bad or extra_dirs:
             cs.violation(
                 "ignored-entry-contributes-to-directory-hash",
